@@ -265,7 +265,7 @@ func init() {
 				W:         weightsWith(map[string]int{"badreq": 5, "call": 8, "auth": 3, "new": 3, "delete": 2, "reaccess": 3, "token": 2, "unsubscribe": 14}),
 				AccessOut: map[string]int{"grant": 10, "calllist": 3, "deny": 3, "denied": 2, "err": 2, "timeout": 2, "noresult": 1, "noresp": 1},
 				GetOut:    map[string]int{"ok": 10, "notfound": 2, "err": 1, "timeout": 2},
-				CallOut:   map[string]int{"result": 6, "resource": 4, "err": 2, "timeout": 1, "null": 1},
+				CallOut:   map[string]int{"result": 6, "resource": 4, "err": 2, "timeout": 1, "null": 1, "both": 2, "empty": 1, "reserr": 1},
 			},
 			// requests outstanding on trees with several references still loading,
 			// unsubscribed, revoked or deleted underneath them
